@@ -240,6 +240,9 @@ def programs(tier, seed):
                         ps.append(prog)
     if tier == "quick":
         ps = [p for p in ps if p.weight <= 14]
+    else:
+        # (a Vec of symbolic length after two length-changing steps does not fit the 12 GB cap: measured)
+        ps = [p for p in ps if p.weight <= 40]
     return ps
 
 
